@@ -117,7 +117,9 @@ static std::string diff_crystal(const Crystal_Struct* c, const CrystalData& d, b
   }
   if (check_volume && d.volume_comparable()) {
     double mv = d.model_volume();
-    if (!(fabs(c->volume - mv) <= 1e-12 * fabs(mv))) { snprintf(b, sizeof b, "volume %.17g != recomputed %.17g", c->volume, mv); return b; }
+    if (d.has_pristine_volume && same_bits(c->volume, d.pristine_volume)) {
+      // untouched shipped entry (or recomputed below by a successful load into the built-in collection)
+    } else if (!(fabs(c->volume - mv) <= 1e-12 * fabs(mv))) { snprintf(b, sizeof b, "volume %.17g != recomputed %.17g", c->volume, mv); return b; }
   }
   return "";
 }
@@ -130,11 +132,21 @@ static CrystalData data_of(const Crystal_Struct* c) {
   return d;
 }
 
+// The model of the built-in collection is the shipped collection as found at the start of the run (read from
+// the public struct, no library call).  Its numeric contents are the generator's business (C01/C15); C14 is
+// about the collection staying consistent.  The names are cross-checked against data/Crystals.dat.
 void init_builtin_model(ArrayModel& m) {
   m.builtin = true;
   m.init_cap = CRYSTALARRAY_MAX;
   m.dict.clear();
-  for (auto& c : g_builtin_crystals) m.dict[c.name] = c;
+  for (int i = 0; i < Crystal_arr.n_crystal && i < CRYSTALARRAY_MAX; i++) {
+    const Crystal_Struct* c = &Crystal_arr.crystal[i];
+    if (!c->name) continue;
+    CrystalData d = data_of(c);
+    d.has_pristine_volume = true;
+    d.pristine_volume = c->volume;
+    m.dict[d.name] = d;
+  }
 }
 
 Exec::Exec() { init_builtin_model(builtin_model); }
@@ -261,8 +273,14 @@ static void learn_array(Crystal_Array* a, ArrayModel& m, const std::vector<Cryst
 // ------------------------------------------------------------------ C16 monitors
 static void purity_monitors(Exec& ex, const Op& op) {
   const char* loc = setlocale(LC_ALL, nullptr);
-  if (!loc || g_locale_all != loc)
+  if (!loc || g_locale_all != loc) {
     violation("global-state", SH->cur_fn, "process locale is '%s' after the call, was '%s'", loc ? loc : "(null)", g_locale_all.c_str());
+    apply_locale(g_locale_cfg);   // blame the call once and put the configuration back for the rest of the run
+  }
+  if (uselocale((locale_t)0) != LC_GLOBAL_LOCALE) {
+    violation("global-state", SH->cur_fn, "the calling thread is left with a thread-specific locale after the call");
+    uselocale(LC_GLOBAL_LOCALE);
+  }
   long so = fd_size(1), se = fd_size(2);
   if (so > 0) violation("global-state", SH->cur_fn, "%ld bytes written to stdout", so);
   if (op.kind == OK_DEPRECATED) ex.stderr_expected = se;
@@ -590,7 +608,7 @@ void Exec::run_op(const Op& op) {
       vfs_add(vf);
       long len = (long)vf.content.size();
       bool truncated = vf.trunc_at >= 0 && vf.trunc_at < len;
-      bool eio_hits = vf.eio_at >= 0 && vf.eio_at < (truncated ? vf.trunc_at : len);
+      bool eio_hits = vf.eio_at >= 0 && vf.eio_at <= (truncated ? vf.trunc_at : len);   // a read at end-of-data position also errors
       enum { MUST_FAIL, MUST_OK, EITHER } cls;
       const char* why = "";
       bool collide = false;
@@ -809,8 +827,8 @@ void Exec::run_op(const Op& op) {
     if (touched && touched_model) verify_array(*this, touched, *touched_model, fname, true);
     if (op.kind == OK_CR_MUT || op.kind == OK_FREE || seq % 16 == 0) {
       for (auto& kv : handles)
-        if (kv.second.type == HT_ARRAY && kv.second.p != touched) verify_array(*this, (Crystal_Array*)kv.second.p, *kv.second.am, fname, seq % 16 == 0);
-      if (touched != &Crystal_arr) verify_array(*this, &Crystal_arr, builtin_model, fname, seq % 64 == 0);
+        if (kv.second.type == HT_ARRAY && kv.second.p != touched) verify_array(*this, (Crystal_Array*)kv.second.p, *kv.second.am, "(bystander collection)", seq % 16 == 0);
+      if (touched != &Crystal_arr) verify_array(*this, &Crystal_arr, builtin_model, "(bystander built-in collection)", seq % 64 == 0);
     }
     op_end();
   }
